@@ -76,6 +76,25 @@ BmaSide  == Nodes({<<"f", "">>, <<"g", "">>}, {"", "n1"}, {NJ, J("g", NoJump, No
 BmaNodesQ == Nodes({<<"f", "">>, <<"g", "">>}, {""}, BmaJumps) \cup Nodes({<<"f", "">>}, {"n1"}, BmaJumps) \cup Ends({""})
 BmaSideQ == {N("f", "", "", NJ), N("g", "", "n1", J(END, NoJump, NoJump)), N(END, "", "", NJ), N("f", "", "", ("R1" :> END))}
 
+(* ---- filter lists of the before / after pipelines ------------------------------------------------*)
+(* SameDefs: the side pipelines declare the filters of the main pipeline (families that vary other   *)
+(* things).  The degenerate family and the sampling domain vary them: no filter at all, another kind  *)
+(* under the same name (results declared per pipeline), a filter the main pipeline does not have.     *)
+SameDefs(d) == {d}
+
+(* ---- family "degen": degenerate before / after (and main) pipelines ----------------------------*)
+(* "an END anywhere stops all three": flows made of built-in END nodes only - which need no filter -,  *)
+(* END first, END twice, END under an alias, next to empty flows and one-filter flows; filter lists   *)
+(* that are empty, the main one, or declare f with kind K1 (then r2 is not a result of f there).      *)
+DegDefs     == {StdDefs, <<>>}
+DegSideDefs(d) == {<<>>, StdDefs, <<F("f", "K1")>>}
+DegNodesM   == {N("f", "", "", NJ), N("g", "", "", J(END, NoJump, NoJump)), N(END, "", "", NJ)}
+DegNodesB   == {N(END, "", "", NJ), N(END, "a", "", NJ), N("f", "", "", NJ), N("f", "", "n1", J(NoJump, END, NoJump))}
+DegNodesA   == {N(END, "", "", NJ), N("f", "", "", NJ), N("g", "", "", NJ)}
+(* quick tier: fewer variants of the after pipeline *)
+DegSideDefsQ(d) == {<<>>, StdDefs}
+DegNodesAQ  == {N(END, "", "", NJ), N("f", "", "", NJ)}
+
 (* ---- sampling domain (-simulate): longer flows, valid by construction (OnlyValid) ---------------*)
 (* k is of kind KC (results R1 and r1, differing only in case): its two results are mapped to       *)
 (* different targets and told apart at run time                                                     *)
@@ -85,6 +104,8 @@ SimJumps == {J(t1, t2, NoJump) : t1 \in SimTargets, t2 \in {NoJump, "b"}}
             \cup {("R1" :> t) @@ J(t1, NoJump, NoJump) : t \in {END, "b", "g"}, t1 \in {NoJump, "a"}}
 SimNodes == Nodes(SimNames, {"", "n1", "n2"}, SimJumps) \cup Ends({"", "a"})
 SimDefs == {<<F("f", "K12"), F("g", "K1"), F("h", "K12"), F("k", "KC")>>}
+(* side pipelines: the same filters, none (only END nodes keep such a flow valid), fewer and of other kinds *)
+SimSideDefs(d) == {d, <<>>, <<F("g", "K12"), F("f", "K1")>>}
 
 (* ---- out ----------------------------------------------------------------------------------------*)
 Case == [cfg |-> cfg,
